@@ -6,7 +6,7 @@ RULES = ('M1', 'M2', 'M3', 'M4', 'M5', 'R01.b', 'R01.c', 'R04.a', 'R04.b', 'R04.
 
 
 def run(prog, rec, tier):
-    combined(prog, rec, tier, RULES, driver=('singleton', 'sequence'), hash=('drivers', 'buffer', 'buffer_sim'), pipe=True, monitor=True, spawn=True,
+    combined(prog, rec, tier, RULES, driver=('singleton', 'sequence', 'layout', 'reader'), hash=('drivers', 'buffer', 'buffer_sim'), pipe=True, monitor=True, spawn=True,
                  explanation='Monitor discipline on the token class (writes under the mutex, waits in re-testing loops with computed '
                  'leave sets, notify_all on the matching condition variable before the mutex is released, leave sets reachable), '
                  'no READY buffer without blocks (end-of-body table over the remaining-length partition), worker exits only on INV, '
